@@ -3,7 +3,7 @@
    The model (Model/Lifecycle.v) follows the repository AFTER three repairs made for this property
    (F11 callSinksAsync lock, F18a EmitSync not in the barrier, F18b consumer dies on a panicking batch);
    each repair is a flag of the configuration, the as-found behaviour is the flag set to false. *)
-From SV Require Import Model.Lifecycle Spec.LifecycleSpec Proofs.LifecycleProofs Proofs.LifecycleDrain.
+From SV Require Import Model.Lifecycle Spec.LifecycleSpec Proofs.LifecycleProofs Proofs.LifecycleDrain Proofs.LifecycleEmit.
 From Coq Require Import List.
 Import ListNotations.
 
@@ -180,6 +180,53 @@ Example C18_idle_stop_first :
   rev (ltrace idle_joined) = [EStopBegin 4; EStopReturn 4 true] /\ life (sh idle_joined) = 0 /\
   cnt lweight (ths idle_joined) = 0 /\ chk_state idle_joined = None.
 Proof. exact idle_stop_first_ok. Qed.
+
+(* Concurrent Emit and Stop never deadlock, every overflow strategy (seeded round 4, "a producer parked under pure
+   backpressure is not released by Stop"). Model reading: Stop closes `done` with its third own step, before anything that
+   can wait; done stays closed on every schedule; and once it is closed, after ANY further interleaving a thread that is
+   anywhere inside Emit (emit_own: any pc of the three strategies' ProcessData, with or without a block timeout) returns
+   when it is run alone for 6 own steps with choice 2 (= the <-done branch of its select, or the straight-line step its pc
+   has) -- whatever the data channel holds, in particular full with nobody draining it any more. The harness tests the
+   premise on the real code (family K: producers parked in Emit on a full channel while Stop runs; the monitor's
+   ClEmitStuck is the event EEmitOver, which no model trace contains: C18_stop_barrier). *)
+Theorem C18_emit_released_by_stop : forall c st sched tid a p, closed (sh st) = true ->
+  nth_error (ths (lrun c sched st)) tid = Some (lmk p [] a) -> emit_own p = true ->
+  nth_error (ths (lrun c (sched ++ rep 6 (tid, 2)) st)) tid = Some (lmk LDone [] a).
+Proof. exact emit_released_by_stop. Qed.
+Print Assumptions C18_emit_released_by_stop.
+Theorem C18_emit_never_waits_once_closed : forall c tid a s p, closed s = true -> emit_own p = true ->
+  exists r, lpstep c tid 2 p a s = Some r.
+Proof. exact emit_never_waits_closed. Qed.
+Print Assumptions C18_emit_never_waits_once_closed.
+Theorem C18_stop_closes_done : forall c st tid ch a, nth_error (ths st) tid = Some (lmk StClose [] a) ->
+  exists st', lstep c tid ch st = Some st' /\ closed (sh st') = true /\ nth_error (ths st') tid = Some (lmk StWindow [] a).
+Proof. exact stop_closes_done. Qed.
+Print Assumptions C18_stop_closes_done.
+Theorem C18_done_stays_closed : forall c sched st, closed (sh st) = true -> closed (sh (lrun c sched st)) = true.
+Proof. exact lrun_closed_mono. Qed.
+Print Assumptions C18_done_stays_closed.
+(* the done branch is necessary: a producer parked under pure backpressure (BlockTimeout <= 0) on a full channel has no
+   enabled step unless done is closed, and then its only step is to return, the row neither enqueued nor anything else
+   touched -- so a ProcessData whose blocking send does not listen to done leaves that producer parked for ever once the
+   processor goroutine is gone *)
+Theorem C18_parked_producer_needs_done : forall c tid ch a s r, c_block_timeout c = false -> dcap s <= length (dq s) ->
+  lpstep c tid ch PdBlkSend a s = Some r -> closed s = true /\ r = (LDone, [], s, []).
+Proof. exact parked_needs_done. Qed.
+Print Assumptions C18_parked_producer_needs_done.
+(* non-vacuity / witness (family K): strategy block without timeout, 1-slot channel, the processor inside a stuck
+   synchronous sink, row 2 in the channel, the producer of row 3 parked with NO enabled step; Stop runs to its join
+   (which it cannot pass); now the producer is enabled and returns, the channel untouched; the sink returns, the processor
+   exits, Stop joins; accepted by the monitor *)
+Example C18_parked_producer_released :
+  nth_error (ths parked_state) 3 = Some (lmk PdBlkSend [] 3) /\ dq (sh parked_state) = [2] /\
+  lenabledb cfg_block 3 parked_state = false /\
+  nth_error (ths parked_stopping) 4 = Some (lmk StJoin [] 0) /\ lstep cfg_block 4 0 parked_stopping = None /\
+  lenabledb cfg_block 3 parked_stopping = true /\
+  nth_error (ths parked_released) 3 = Some (lmk LDone [] 3) /\ dq (sh parked_released) = [2] /\
+  rev (ltrace parked_joined) =
+    [EEnq 1; EProc 1 false; ESinkBegin 0 false; EEnq 2; EStopBegin 4; ESinkEnd 0; EStopReturn 4 true] /\
+  chk_state parked_joined = None /\ joined (sh parked_joined) = true.
+Proof. exact parked_released_ok. Qed.
 
 (* non-vacuity: a run with two workers, a processor, a producer, an EmitSync and a Stop in which sinks are invoked,
    the Stop returns through the join, and the barrier is established *)
